@@ -57,7 +57,9 @@ func (d *DB) Freeze()        { atomic.StoreInt32(&d.frozen, 1) }
 func (d *DB) Frozen() bool   { return atomic.LoadInt32(&d.frozen) == 1 }
 
 func (d *DB) call(kind string) error {
-	if d.Frozen() {
+	// a frozen (crashed) instance can no longer change the database; reads of its
+	// abandoned goroutines are harmless and keep them from tripping over nil state
+	if d.Frozen() && (kind == "begin" || kind == "commit") {
 		return ErrFrozen
 	}
 	idx := atomic.AddInt64(&d.calls, 1)
